@@ -45,8 +45,9 @@ struct World {
 
 // reads the damaged database and judges it
 void judge_image(World &W, const string &dir, const Mutation &m) {
-  char where[300];
-  snprintf(where, sizeof where, "%s of %s (%s region) at offset %zu%s", kind_name[m.kind], m.file.c_str(), m.region, m.off, m.kind == 0 ? (" bit " + std::to_string(m.bit)).c_str() : "");
+  char wbuf[300];
+  snprintf(wbuf, sizeof wbuf, "%s of %s (%s region) at offset %zu%s", kind_name[m.kind], m.file.c_str(), m.region, m.off, m.kind == 0 ? (" bit " + std::to_string(m.bit)).c_str() : "");
+  const char *where = wbuf;
   bool meta_damage = m.fclass != simfs::FC_TABLE;
   // table damage is judged with paranoid_checks on (as the property says); the sentence about log/MANIFEST damage is
   // not restricted to that mode, so those images are opened both ways (alternating)
@@ -78,6 +79,7 @@ void judge_image(World &W, const string &dir, const Mutation &m) {
   }
   // table damage: every answer is correct or an error
   bool any_error = false;
+  auto read_checks = [&]() {
   for (auto &k : W.keys) {
     string v;
     int grc = db_get(db, k, &v, nullptr, 1, 0);
@@ -149,7 +151,22 @@ void judge_image(World &W, const string &dir, const Mutation &m) {
     }
     ldb_iter_destroy(it);
   }
+  };
+  read_checks();
   probe(any_error ? "outcome:error_reported" : "outcome:all_correct");
+  // a compaction that reads the damaged file (checksums are verified: paranoid_checks) must not launder the damage
+  // into freshly checksummed tables: afterwards every answer is still correct or an error
+  if (!failed() && mix64(m.off * 31 + (uint64_t)m.bit, 0xC0DE + (uint64_t)m.kind) % 4 == 0) {
+    ldb_compact(db, NULL, NULL);
+    sim::drain();
+    string w2 = string(wbuf) + ", then a full manual compaction";
+    where = w2.c_str();
+    bool first_error = any_error; any_error = false;
+    read_checks();
+    count("post_compaction_read_passes");
+    probe(any_error ? "outcome_after_compaction:error_reported" : first_error ? "outcome_after_compaction:error_gone_answers_correct" : "outcome_after_compaction:all_correct");
+    where = wbuf;
+  }
   ldb_close(db);
 }
 
